@@ -204,6 +204,8 @@ def calls_segment(inp, r):
 def eval_segment(inp, r):
     kw = draw_params(r, {"frame_size": FRAME_SIZES, "beta": [1.0, 0.25, 2.0],
                          "trim": [False, True], "marginal": [False, True]}, 0.6)
+    if r.random() < 0.12:
+        kw["window"] = 1.0  # evaluate() documents fixed 0.5 s / 3 s windows
     return _seg4(inp), kw
 
 
@@ -216,9 +218,17 @@ def gen_chord(r, universe=None):
     riv, _ = gen.segmentation(r, n=n, start=start, total=total)
     rlab = [_chord_label(r, universe) for _ in range(len(riv))]
     kind = r.choice(["independent", "copy", "shorter", "longer", "earlier",
-                     "relabel", "coincide-end", "coincide-start"])
+                     "relabel", "coincide-end", "coincide-start", "jitter"])
     if kind == "copy":
         eiv, elab = riv.copy(), list(rlab)
+    elif kind == "jitter":
+        # same segmentation with every boundary off by a few microseconds
+        # (e.g. one file rounded to fewer decimals than the other)
+        bs = [riv[0, 0]] + [b for _, b in riv]
+        bs = [max(0.0, b + r.choice([1, -1, 2, -2, 0]) * 2.0 ** r.choice([-16, -18, -20]))
+              for b in bs]
+        eiv = np.array([[a, b] for a, b in zip(bs[:-1], bs[1:])])
+        elab = [l if r.random() < 0.8 else _chord_label(r, universe) for l in rlab]
     elif kind == "relabel":
         eiv = riv.copy()
         elab = [l if r.random() < 0.6 else _chord_label(r, universe) for l in rlab]
@@ -330,6 +340,12 @@ def gen_melody(r):
     if r.random() < 0.3:
         ref_reward = np.array([r.choice([0.0, 0.5, 1.0, 1.0, 0.75])
                                for _ in ref_time])
+    if ref_reward is not None and kind in ("same", "copy") and r.random() < 0.5:
+        # mostly low reward; the estimate is voiced exactly where it is full
+        ref_reward = np.array([r.choice([1.0, 0.25, 0.125, 0.125, 0.5])
+                               for _ in ref_time])
+        est_voicing = (ref_reward == 1.0).astype(float)
+        kind += "/reward-aligned"
     if r.random() < 0.12:
         # integer-typed frequency arrays (e.g. Hz rounded by an annotation tool)
         ref_freq = np.round(ref_freq).astype(np.int64)
@@ -353,6 +369,13 @@ def gen_melody_frames(r):
     rc = np.array([r.choice([0.0, 4800.0 + 25 * r.randrange(0, 97)]) for _ in range(n)])
     ec = np.array([c + r.choice([0, 0, 25, -25, 50, 75, 1200, -1200, 1225]) if c and
                    r.random() < 0.8 else r.choice([0.0, 5000.0]) for c in rc])
+    if continuous and n and r.random() < 0.4:
+        # hostile alignment: mostly low reward, the estimate is voiced (and right)
+        # exactly on the fully rewarded frames and silent elsewhere
+        rv = np.array([r.choice([1.0, 0.25, 0.25, 0.125, 0.125, 0.5]) for _ in range(n)])
+        rc = np.array([4800.0 + 25 * r.randrange(0, 97) for _ in range(n)])
+        evv = (rv == 1.0).astype(float)
+        ec = rc.copy()
     return rv, rc, evv, ec
 
 
@@ -413,6 +436,11 @@ def gen_transcription(r):
         eiv, ehz, evel = gen.related_notes(r, riv, rhz, rvel)
     else:
         eiv, ehz, evel = gen.notes(r)
+    # velocities on a 0..1 (or 0..0.5) float scale instead of MIDI 0..127
+    vs = r.choice([1.0, 1.0, 1.0, 1.0, 1 / 127.0, 1 / 256.0])
+    if vs != 1.0:
+        rvel, evel = rvel * vs, evel * vs
+        kind += "/float-velocity"
     return {"ref_iv": riv, "ref_p": rhz, "ref_v": rvel, "est_iv": eiv,
             "est_p": ehz, "est_v": evel,
             "cls": "%s:%s/%s" % (kind, _size_cls(len(riv)), _size_cls(len(eiv)))}
@@ -477,7 +505,7 @@ def gen_tempo(r):
     for t in ref:
         base = t if t > 0 else 100.0
         est.append(base * r.choice([1.0, 1.0, 1.0625, 0.9375, 1.08, 0.92, 1.5, 2.0,
-                                    1.25, 0.0]))
+                                    1.25, 0.0, 1.003, 0.997, 1.0015]))
     est = np.array(est)
     if r.random() < 0.3:
         est = est[::-1].copy()
@@ -562,7 +590,7 @@ def gen_pattern(r, max_pat=5):
     else:
         ref = patterns(r.randrange(1, max_pat + 1))
     kind = r.choice(["independent", "copy", "translated", "subset", "empty", "mixed",
-                     "mixed", "partial", "partial"])
+                     "mixed", "partial", "partial", "nudged"])
     if kind == "partial":
         # every occurrence keeps only part of its notes, so cardinality scores
         # land between the 0.5 and 0.75 occurrence thresholds
@@ -579,6 +607,15 @@ def gen_pattern(r, max_pat=5):
             est += patterns(1)
     elif kind == "copy":
         est = copy.deepcopy(ref)
+    elif kind == "nudged":
+        # copies whose prototype has one onset off by 1/128 s: far above the
+        # default tolerance 1e-5, far below the 0.5 s alternative
+        est = copy.deepcopy(ref)
+        for p in est:
+            if len(p[0]) > 1 and r.random() < 0.7:
+                k = r.randrange(1, len(p[0]))
+                t, m = p[0][k]
+                p[0][k] = (t + r.choice([1, -1, 2]) / 128.0, m)
     elif kind == "translated":
         est = [[_translate(o, 8.0, 2.0) for o in p] for p in ref]
     elif kind == "subset":
@@ -646,9 +683,20 @@ def gen_hier_one(r, total, levels=None, nested=None):
     return ivs, labs
 
 
+def _ulp_top(ivs):
+    """The top layer ends one ulp early; admitted (spans are compared with
+    np.allclose), and the frame count must still come from all layers."""
+    if len(ivs) >= 2:
+        ivs[0] = ivs[0].copy()
+        ivs[0][-1, 1] = np.nextafter(ivs[0][-1, 1], 0.0)
+
+
 def gen_hierarchy(r, for_evaluate=False):
     total = r.randrange(32, 64 * 8)
-    rivs, rlabs = gen_hier_one(r, total)
+    ulp = r.random() < 0.1
+    if ulp:
+        total = max(64, total // 64 * 64)
+    rivs, rlabs = gen_hier_one(r, total, levels=r.randrange(2, 4) if ulp else None)
     kind = r.choice(["independent", "copy", "flat"])
     etotal = total
     cls = kind
@@ -666,6 +714,13 @@ def gen_hierarchy(r, for_evaluate=False):
         eivs, elabs = gen_hier_one(r, etotal, levels=1)
     else:
         eivs, elabs = gen_hier_one(r, etotal)
+    if ulp:
+        which = r.choice(["ref", "est", "both"])
+        if which in ("ref", "both"):
+            _ulp_top(rivs)
+        if which in ("est", "both"):
+            _ulp_top(eivs)
+        cls += "/ulp-short-top-layer"
     return {"ref_ivs": rivs, "ref_labs": rlabs, "est_ivs": eivs, "est_labs": elabs,
             "total": total / Q, "cls": cls}
 
@@ -695,6 +750,8 @@ def eval_hierarchy(inp, r):
         kw["window"] = pick(r, [None, 15.0, 2.0, 4.0])
     if r.random() < 0.3:
         kw["beta"] = pick(r, [0.5, 2.0])
+    if r.random() < 0.2:
+        kw["transitive"] = r.random() < 0.5  # evaluate() reports both regardless
     return (inp["ref_ivs"], inp["ref_labs"], inp["est_ivs"], inp["est_labs"]), kw
 
 
